@@ -574,6 +574,7 @@ func cmdCheck(args []string) int {
 	keep := fs.Bool("keep", false, "keep the work directory")
 	noEvidence := fs.Bool("no-evidence", false, "do not write the evidence file")
 	workers := fs.Int("workers", 16, "worker processes")
+	paramF := fs.String("param", "", "extra harness parameters k=v[,k=v] (experiments; implies --no-evidence)")
 	repoF := fs.String("repo", "", "build from this tree instead of /repo (scratch worktrees for sensitivity experiments; implies --no-evidence and a separate work dir)")
 	fs.Parse(args[1:])
 	workTag := ""
@@ -607,6 +608,20 @@ func cmdCheck(args []string) int {
 	}
 	if *runsF > 0 {
 		tc.Runs = *runsF
+	}
+	if *paramF != "" {
+		np := map[string]string{}
+		for k, v := range tc.Params {
+			np[k] = v
+		}
+		for _, kv := range strings.Split(*paramF, ",") {
+			if i := strings.IndexByte(kv, '='); i > 0 {
+				np[kv[:i]] = kv[i+1:]
+			}
+		}
+		tc.Params = np
+		*noEvidence = true
+		workTag += "-p" + sigHash(*paramF)
 	}
 	if tc.Batch == 0 {
 		tc.Batch = (tc.Runs + *workers - 1) / *workers
